@@ -101,8 +101,20 @@ func (s *Solver) isDeclared(name string) bool {
 	return false
 }
 
+func (s *Solver) declaredWidth(name string) int {
+	for _, m := range s.decl {
+		if w, ok := m[name]; ok {
+			return w
+		}
+	}
+	return -1
+}
+
 func (s *Solver) declareFor(vars []*Term) {
 	for _, v := range vars {
+		if w := s.declaredWidth(v.Name); w >= 0 && w != v.W {
+			s.stats.Errors = append(s.stats.Errors, fmt.Sprintf("variable %s redeclared with width %d (was %d)", v.Name, v.W, w))
+		}
 		if !s.isDeclared(v.Name) {
 			s.send(fmt.Sprintf("(declare-const %s %s)", v.Name, sortOf(v.W)))
 			s.decl[len(s.decl)-1][v.Name] = v.W
